@@ -50,7 +50,11 @@ type vfDelivery struct {
 type vfFault struct {
 	Kind string `json:"k"` // "drop", "dup", "delay" (300 ms), "delay2" (1.5 s, longer than the initial timeout)
 	Dir  int    `json:"d"` // sender: 0 client, 1 server
-	Nth  int    `json:"n"` // n-th datagram sent by that sender (0-based, retransmissions included)
+	Nth  int    `json:"n"` // n-th datagram sent by that sender (0-based, retransmissions included); -1: see Count
+	// Count (with Nth == -1): the fault hits the first Count datagrams of that sender that carry a
+	// cleartext ChangeCipherSpec record, i.e. a final flight and its retransmissions, however many
+	// other datagrams lie in between
+	Count int `json:"c,omitempty"`
 }
 
 type vfSentRec struct {
@@ -98,6 +102,9 @@ type vfDSim struct {
 	spun     bool
 	livelock bool
 	applied  int // number of fault-plan entries that were actually applied
+	matchUsed map[int]int
+	// onAdvance is called (simulator locked, every endpoint blocked) when virtual time moves forward by d
+	onAdvance func(d time.Duration)
 }
 
 func vfNewDSim(faults []vfFault, tie int) *vfDSim {
@@ -199,8 +206,16 @@ func (e *vfDEnd) WriteTo(p []byte, addr net.Addr) (int, error) {
 	act := "send"
 	deliveries := []vfDelivery{{Data: data}}
 	if !s.faultsOff && (s.faultable == nil || s.faultable(data)) {
-		for _, f := range s.faults {
-			if f.Dir == e.idx && f.Nth == n {
+		for fi, f := range s.faults {
+			hit := f.Dir == e.idx && f.Nth == n
+			if f.Nth < 0 && f.Dir == e.idx && s.matchUsed[fi] < f.Count && vfHasCCS(data) {
+				if s.matchUsed == nil {
+					s.matchUsed = map[int]int{}
+				}
+				s.matchUsed[fi]++
+				hit = true
+			}
+			if hit {
 				s.applied++
 				switch f.Kind {
 				case "drop":
@@ -242,6 +257,21 @@ func (e *vfDEnd) WriteTo(p []byte, addr net.Addr) (int, error) {
 	}
 	s.spin = 0
 	return len(p), nil
+}
+
+// vfHasCCS: the datagram carries a cleartext ChangeCipherSpec record.
+func vfHasCCS(d []byte) bool {
+	for len(d) >= 13 {
+		l := int(d[11])<<8 | int(d[12])
+		if 13+l > len(d) {
+			return false
+		}
+		if d[0] == 20 && d[3] == 0 && d[4] == 0 {
+			return true
+		}
+		d = d[13+l:]
+	}
+	return false
 }
 
 // inject queues a datagram towards end `to` as coming from address fromAddr (harness use).
@@ -370,6 +400,9 @@ func (s *vfDSim) run(horizon time.Duration) error {
 			return errVfHorizon
 		}
 		if next > s.now {
+			if s.onAdvance != nil {
+				s.onAdvance(next - s.now)
+			}
 			s.now = next
 		}
 		sort.SliceStable(s.timers, func(i, j int) bool { return s.timers[i].at < s.timers[j].at })
